@@ -63,7 +63,27 @@ def check_stream(case, stats):
     paths = []
     try:
         written = {}
+        hand_made = case.get("api") == "hand-made"
+        fifo_writers = []
         for i, s in enumerate(case["sources"]):
+            if hand_made:
+                # source envelopes made by the caller (text that never was a file): any uri string, also the empty one
+                paths.append(case["uris"][i % len(case["uris"])])
+                continue
+            if case.get("api") == "fifo" and i == len(case["sources"]) - 1:
+                # the last "file" is a named pipe fed by another thread (process substitution, /dev/stdin): read to its end like any file
+                import threading
+                p = "pipe-%d-%d.feature" % (os.getpid(), i)
+                os.mkfifo(p)
+
+                def feed(p=p, s=s):
+                    with open(p, "w", encoding="utf8", newline="") as f:
+                        f.write(s)
+                th = threading.Thread(target=feed, daemon=True)
+                th.start()
+                fifo_writers.append((p, th))
+                paths.append(p)
+                continue
             # the same source listed twice is the same file listed twice (same uri)
             if case.get("same_path_for_equal_sources") and s in written:
                 paths.append(written[s])
@@ -115,7 +135,9 @@ def check_stream(case, stats):
             per_source = []
             # the paths may come as any iterable (a generator over a directory listing, a tuple)
             given = iter(list(paths)) if case.get("api") == "iterator-paths" else tuple(paths) if case.get("api") == "tuple-paths" else paths
-            for se in gh.SourceEvents(given).enum():
+            events = ([{"source": {"uri": u, "data": t, "mediaType": "text/x.cucumber.gherkin+plain"}} for u, t in zip(paths, case["sources"])] if hand_made
+                      else gh.SourceEvents(given).enum())
+            for se in events:
                 se_before = json.loads(json.dumps(se))
                 if case.get("api") == "reordered-keys":
                     # the same source envelope with its keys in another order (e.g. after a sort-keys JSON round trip)
@@ -167,9 +189,16 @@ def check_stream(case, stats):
         stats.case(case, (len(paths) >= 2 and not all(accepted)) or arg, sample={"opts": opts, "n_sources": len(paths), "accepted": accepted, "first": case["sources"][0][:160]},
                    labels=["opts=%d%d%d" % tuple(int(o) for o in opts), "sources=%d" % len(paths), case.get("api", "enum")] + (["has-rejected"] if not all(accepted) else []))
     finally:
-        for p in paths:
+        for p, th in fifo_writers:
+            # release a writer still waiting for a reader (the library never opened the pipe)
             with contextlib.suppress(OSError):
-                os.unlink(p)
+                fd = os.open(p, os.O_RDONLY | os.O_NONBLOCK)
+                th.join(5)
+                os.close(fd)
+        if not hand_made:
+            for p in paths:
+                with contextlib.suppress(OSError):
+                    os.unlink(p)
 
 
 SPECIALS = [
@@ -198,7 +227,7 @@ def g_stream(s):
     dup = s.int(4) == 0
     if dup and srcs:
         srcs.insert(s.int(len(srcs) + 1), srcs[s.int(len(srcs))])
-    return {"sub": "stream", "sources": srcs, "opts": [bool(s.int(2)), bool(s.int(2)), bool(s.int(2))], "api": s.choice(["main", "enum", "enum", "enum", "round-robin", "reordered-keys", "iterator-paths", "tuple-paths"]),
+    return {"sub": "stream", "sources": srcs, "opts": [bool(s.int(2)), bool(s.int(2)), bool(s.int(2))], "api": s.choice(["main", "enum", "enum", "enum", "round-robin", "reordered-keys", "iterator-paths", "tuple-paths", "hand-made"]), "uris": ["", "u", "0"],
             "same_path_for_equal_sources": dup}
 
 
@@ -269,6 +298,10 @@ def unit_corpus(a):
         cases.append({"sub": "stream", "sources": [t for _, t in texts[i:i + 3]], "opts": [True, True, True], "api": "round-robin"})
         cases.append({"sub": "stream", "sources": [t for _, t in texts[i:i + 3]], "opts": [True, True, True], "api": "reordered-keys"})
         cases.append({"sub": "stream", "sources": [t for _, t in texts[i:i + 3]], "opts": [True, True, True], "api": "iterator-paths"})
+    for i in range(0, len(texts), 6):
+        for opts in ([True, True, True], [False, True, False], [False, False, True]):
+            cases.append({"sub": "stream", "sources": [t for _, t in texts[i:i + 3]], "opts": opts, "api": "hand-made", "uris": ["", " ", "0", "None", "a b", "\u00e9.feature", "x" * 300][i % 7:] + [""]})
+        cases.append({"sub": "stream", "sources": [t for _, t in texts[i:i + 2]], "opts": [True, True, True], "api": "fifo"})
     same = texts[3][1]
     cases.append({"sub": "stream", "sources": [same, texts[4][1], same, same], "opts": [True, True, True], "api": "enum", "same_path_for_equal_sources": True})
     cases.append({"sub": "stream", "sources": [same, same], "opts": [False, False, True], "api": "main", "same_path_for_equal_sources": True})
